@@ -47,6 +47,7 @@ type Scenario struct {
 	Enc            string   `json:"enc"`                   // ascii | sjis | utf8 | raw-utf8 | raw-sjis
 	DecoSeed       uint64   `json:"deco_seed"`
 	CRLF           bool     `json:"crlf,omitempty"`
+	MixedEOL       uint64   `json:"mixed_eol,omitempty"` // != 0: every line end is LF or CRLF, chosen per line from this seed
 	NoFinalNL      bool     `json:"no_final_nl,omitempty"`
 	Bulk           int      `json:"bulk,omitempty"`       // >0: blocks of this many own-line comment lines are inserted (large files)
 	Light          bool     `json:"light,omitempty"`      // no very long comments (used with -d, whose parser trace is enormous)
@@ -173,6 +174,10 @@ func commentText(r *RNG, enc string, light bool) []byte {
 			b = append(b, string(ru)...)
 			continue
 		}
+		if r.Chance(1, 40) { // control characters that are not line ends: FF, VT, ESC, DEL, Ctrl-Z (DOS end-of-file mark)
+			b = append(b, pick(r, []byte{0x0c, 0x0b, 0x1b, 0x7f, 0x1a, 0x08, 0x01}))
+			continue
+		}
 		if enc == "sjis" && c.S == nil {
 			continue
 		}
@@ -219,7 +224,15 @@ func (s *Scenario) materialise() (src []byte, plain []byte) {
 		for i, l := range ls {
 			b.Write(l)
 			if i < len(ls)-1 || !s.NoFinalNL {
-				b.WriteString(nl)
+				if s.MixedEOL != 0 { // per-line choice, the same for the commented and the comment-free file
+					if splitmix64(s.MixedEOL+uint64(i))%3 == 0 {
+						b.WriteString("\r\n")
+					} else {
+						b.WriteString("\n")
+					}
+				} else {
+					b.WriteString(nl)
+				}
 			}
 		}
 		return b.Bytes()
